@@ -127,3 +127,34 @@ class GitStore_iter_changes:
                 and forall("str", lambda n: (n in previous) == (has_old and n in A and n not in B))
                 and forall("str", lambda n: implies(n in previous, previous[n][0] == default_mime(n)
                                                     and previous[n][1] == A[n])))
+
+
+@contract("xandikos.store.Store.delete_one",
+          params={"self": "obj:xandikos.store.git.GitStore", "name": "str", "message": "opt[str]",
+                  "author": "opt[str]", "etag": "opt[str]"},
+          defaults={"message": None, "author": None, "etag": None},
+          modifies=["self.ghost_M"])
+class Store_delete_one:
+    """Interface contract (BareGitStore.delete_one / TreeGitStore.delete_one refine it with
+    ghost_M = their view)."""
+
+    def raises_NoSuchItem(self, name):
+        return name not in self.ghost_M
+
+    def raises_InvalidETag(self, name, etag):
+        return name in self.ghost_M and etag is not None and self.ghost_M[name] != etag
+
+    def raises_LockedError(self, name, etag):
+        return (name in self.ghost_M and not (etag is not None and self.ghost_M[name] != etag)
+                and self.ghost_locked)
+
+    def ensures(self, name):
+        return self.ghost_M == old(self.ghost_M).without(name)
+
+
+@contract("xandikos.store.Store.subdirectories", params={"self": "obj:xandikos.store.git.GitStore"},
+          returns="list[str]")
+class Store_subdirectories:
+    def ensures(self, result):
+        return (forall("int", lambda j: implies(0 <= j and j < len(result), result[j] in self.ghost_subdirs))
+                and forall("str", lambda n: implies(n in self.ghost_subdirs, n in result)))
